@@ -18,7 +18,7 @@ META = {
                   "BaseProject.remove_absence_time_list"] + SIM_FUNCTIONS,
     "stubs": STUB_NOTES + ["json/open in pDESy.model.base_project: in-memory store with JSON normalisation (replays use real files)"],
     "assumptions": profiles.ASSUMPTIONS + ["unit pairs with integer or dyadic ratio in the solver claim (1,2,3,4 minutes; 30 s; 12/24/36 h; 250/500/1500 ms); the ratio arithmetic itself is concrete on every path"],
-    "bounds": {"quick": {"sub-project work": "1..4", "absence steps": "<= 2 in 0..5", "unit pairs": 8, "predecessor work": "0..2"}, "thorough": {"sub-project work": "1..6", "unit pairs": 12}},
+    "bounds": {"quick": {"sub-project work": "1..6", "absence steps": "<= 2 in 0..6", "unit pairs": "14 (+4 with a sub-second part)", "predecessor work": "0..2"}, "thorough": {"sub-project work": "1..10", "absence steps": "<= 2 in 0..9", "unit pairs": "20 (+4)"}},
     "outside": profiles.OUTSIDE + ["D = 0 (a zero-length sub-project still shows one WORKING step)", "non-dyadic non-integer unit ratios"],
 }
 REQUIRED_COVERS = {"any": ["absence-removed", "absence-kept", "ratio:gt1", "ratio:lt1", "refused", "waits-for-predecessor", "configured-twice", "sub-project-backward", "file-rewritten", "parent-through-json", "unit-with-sub-second-part", "reconfigured-after-file-changed", "two-predecessors"]}
@@ -215,9 +215,12 @@ def configure(p, ctx):
 def obligations(tier, seed):
     thorough = tier == "thorough"
     obs = []
-    pairs = [(60, 60), (60, 120), (120, 60), (60, 180), (180, 60), (60, 240), (30, 60), (240, 60), (43200, 86400), (43200, 129600)]
+    pairs = [(60, 60), (60, 120), (120, 60), (60, 180), (180, 60), (60, 240), (30, 60), (240, 60), (43200, 86400), (43200, 129600),
+             (60, 30), (120, 180), (180, 120), (3600, 86400)]
     if thorough:
-        pairs += [(60, 30), (120, 180), (180, 120), (3600, 86400)]
+        pairs += [(90, 60), (60, 90), (7200, 3600), (86400, 3600), (60, 300), (300, 60)]
+    swmax = 10 if thorough else 6
+    samax = 9 if thorough else 6
     for (ss, ps) in pairs:
         for remove in (0, 1):
             for kind in (0, 1):
@@ -226,14 +229,14 @@ def obligations(tier, seed):
                 twice = (ss, ps) in ((60, 60), (60, 120))
                 obs.append({"name": "sub/%ds-in-%ds/remove=%d/kind=%d%s" % (ss, ps, remove, kind, "/twice" if twice else ""), "harness": "configure",
                             "cube": {"sub_s": ss, "par_s": ps, "remove": remove, "kind": kind, "stage": "success", "twice": twice},
-                            "params": [["sw", 1, 6 if thorough else 4], ["sa0", 0, 6], ["sa1", 0, 6], ["pw", 0, 2]], "pre": "sa0 < sa1",
+                            "params": [["sw", 1, swmax], ["sa0", 0, samax], ["sa1", 0, samax], ["pw", 0, 2]], "pre": "sa0 < sa1",
                             "timeout": 600 if thorough else 150, "engine": "zsym"})
     # units with a sub-second part (ratios 3/2, 1/2, 1/4, 3): the unit must survive the saved file exactly
     for (sm, pm) in ((1500, 1000), (500, 1000), (250, 1000), (1500, 500)):
         for remove in (0, 1):
             obs.append({"name": "sub/%dms-in-%dms/remove=%d" % (sm, pm, remove), "harness": "configure",
                         "cube": {"sub_ms": sm, "par_ms": pm, "remove": remove, "kind": 0, "stage": "success"},
-                        "params": [["sw", 1, 6 if thorough else 4], ["sa0", 0, 6], ["sa1", 0, 6], ["pw", 0, 1]], "pre": "sa0 < sa1",
+                        "params": [["sw", 1, swmax], ["sa0", 0, samax], ["sa1", 0, samax], ["pw", 0, 1]], "pre": "sa0 < sa1",
                         "timeout": 600 if thorough else 150, "engine": "zsym"})
     for (ss, ps) in ((60, 120), (129600, 43200), (86400, 86400)):
         obs.append({"name": "sub/%ds-in-%ds/parent-through-json" % (ss, ps), "harness": "configure",
